@@ -1,9 +1,9 @@
 package c09
 
 import (
-	"os"
 	"fmt"
 	"math/big"
+	"os"
 	"sort"
 	"strings"
 	"testing"
@@ -24,7 +24,7 @@ import (
 
 func TestMain(m *testing.M) { drv.Main(m) }
 
-const rule = "state machine on the real application: MsgCreateGauge (perpetual / N-epoch, by-duration on a lockable duration, reward coins in uosmo and in a denom valued through a protorev-registered pool, start time past/now/future), MsgAddToGauge, lock / extend-lock / begin-unlock / reward-receiver changes between epochs, minimum-value parameter changes, and epoch ends driven through the real x/epochs BeginBlocker (so the incentives hook runs in its hook context); oracle per epoch computed from state read before the epoch block: every qualifying lock's receiver gets floor(remaining x lockAmt / (lockSum x remainingEpochs)) per coin unless below the minimum value (own denom: amount < min; other denom: compared through the pool's own CalcOutAmtGivenIn; the <=100-unit single-coin anti-spam rule as coded), gauge distributed coins grow by the same total, sum distributed <= deposited, module balance >= undistributed remainder of unfinished gauges, upcoming -> active at the first epoch end with blockTime >= start, non-perpetual gauges finish after exactly N paying epochs and then neither pay nor accept top-ups; non-trivial = >= 2 qualifying locks with different receivers, >= 3 epochs and a lock change between epochs; distinct by history hash"
+const rule = "state machine on the real application: MsgCreateGauge (perpetual / N-epoch, by-duration on a lockable duration, reward coins in uosmo and in a denom valued through a protorev-registered pool, start time past/now/future), MsgAddToGauge, lock / extend-lock / begin-unlock (whole or partial) / reward-receiver changes between epochs, minimum-value parameter changes, and epoch ends driven through the real x/epochs BeginBlocker (so the incentives hook runs in its hook context); oracle per epoch computed from state read before the epoch block: every qualifying lock's receiver gets floor(remaining x lockAmt / (lockSum x remainingEpochs)) per coin unless below the minimum value (own denom: amount < min; other denom: compared through the pool's own CalcOutAmtGivenIn; the <=100-unit single-coin anti-spam rule as coded), gauge distributed coins grow by the same total, sum distributed <= deposited, module balance >= undistributed remainder of unfinished gauges, upcoming -> active at the first epoch end with blockTime >= start, non-perpetual gauges finish after exactly N paying epochs and then neither pay nor accept top-ups; non-trivial = >= 2 qualifying locks with different receivers, >= 3 epochs and a lock change between epochs; distinct by history hash"
 
 const lockDenom = "lptoken"
 
@@ -252,9 +252,18 @@ func TestPropGauges(t *testing.T) {
 				}
 				l := ls[rapid.IntRange(0, len(ls)-1).Draw(rt, "lock")]
 				owner, _ := sdk.AccAddressFromBech32(l.Owner)
-				if r := c.Exec(lockuptypes.NewMsgBeginUnlocking(owner, l.ID, nil)); r.OK() {
+				// the whole lock, or a part of it (the lock is split: the part starts unlocking under a new id, the remainder
+				// stays bonded under the old one - both keep qualifying until the part has matured)
+				var part sdk.Coins
+				if rapid.Bool().Draw(rt, "partial") && len(l.Coins) == 1 && l.Coins[0].Amount.GT(osmomath.OneInt()) {
+					part = sdk.NewCoins(sdk.NewCoin(l.Coins[0].Denom, osmomath.NewInt(rapid.Int64Range(1, l.Coins[0].Amount.Int64()-1).Draw(rt, "partAmt"))))
+				}
+				if r := c.Exec(lockuptypes.NewMsgBeginUnlocking(owner, l.ID, part)); r.OK() {
 					lockChanges++
-					hist = append(hist, fmt.Sprintf("unlock #%d", l.ID))
+					if part != nil {
+						cs.Class("partial-begin-unlock")
+					}
+					hist = append(hist, fmt.Sprintf("unlock #%d %s", l.ID, part))
 				}
 			},
 			"extend": func(rt *rapid.T) {
